@@ -5,7 +5,7 @@
     C06 repairs 2503a9b, ac01883, ac20f13, 1687e77: no launch has a schedule
     oracle any more and nothing below is refuted. *)
 From Coq Require Import ZArith List Bool.
-From Cicada Require Import Model.Jobs Model.Term Proofs.TermProofs.
+From Cicada Require Import Model.Jobs Model.Term Proofs.TermProofs Proofs.JobsSpec Proofs.JobsInv Proofs.TermSim.
 Import ListNotations.
 Local Open Scope Z_scope.
 
@@ -60,8 +60,71 @@ Check C07_full_holds : forall c acts, tty c = true ->
   (forall g pids w v, md (Term.run c acts) = Waiting g pids w v -> owner (Term.run c acts) = g) /\
   Forall (led acts) (groups (Term.run c acts)).
 
+(** ---------- the job-table clauses, as corollaries of C06 lifted through the actions.
+    [gh] of a state is the history of C06's model the session has performed
+    (Model/Term.v: a launch = Launch, a foreground wait that returned = Wait with
+    the statuses it consumed, every poll = Poll with the statuses it drained; fg
+    and bg are no operations of C06's model, hence [no_fgbg]). *)
+Definition hist (c : cfg) (acts : list action) : list op := gh (Term.run c acts).
+
+(** The shell value (job table + parked maps) of the session IS C06's model
+    run on the projected history; while waiting, resuming C06's wait loop on the
+    current shell equals running it from the start of the wait. *)
+Theorem C07_simulation : forall c acts, forallb no_fgbg acts = true -> Sim (Term.run c acts).
+Proof. exact sim. Qed.
+
+Corollary C07_table_is_C06 : forall c acts,
+  forallb no_fgbg acts = true -> md (Term.run c acts) = AtPrompt ->
+  shl (k (Term.run c acts)) = r_sh (Jobs.run (hist c acts)) /\ r_pend (Jobs.run (hist c acts)) = [].
+Proof.
+  intros c acts A M. destruct (sim c acts A) as [P H]. rewrite M in H. split; auto.
+Qed.
+
+(** "The foreground wait returns exactly when no member of the job runs": for
+    every foreground wait of the session (a Wait of the projected history), when
+    the history is valid in C06's sense, C06's [good_wait] holds right after it:
+    the wait has returned, no member is running (all exited / killed / stopped,
+    by the statuses consumed), some member was still running before the last
+    status it consumed, and the status is the last member's. *)
+Theorem C07_wait_exact : forall c acts h gid pids evs rest,
+  valid (hist c acts) = true -> hist c acts = h ++ Wait gid pids evs :: rest ->
+  good_wait (h ++ [Wait gid pids evs]) pids = true.
+Proof.
+  intros c acts h gid pids evs rest V E.
+  assert (V1 : valid (h ++ [Wait gid pids evs]) = true).
+  { apply (valid_prefix _ rest). rewrite <- app_assoc. cbn. rewrite <- E. exact V. }
+  destruct (valid_good _ V1) as [_ G]. unfold good in G. rewrite last_last in G. exact G.
+Qed.
+
+(** "[jobs] lists exactly the live background-or-stopped pipelines with their
+    true state": the job lines printed are [job_line] of every entry of C06's
+    table after the history [hj] (the session so far plus the poll inside
+    [jobs]), nothing is pending there, and when [hj] is valid that table is good:
+    a launched process is in it iff it has not ended, shown stopped iff it is
+    stopped, every job has a live member and is Stopped iff all its live members
+    are. With the wait clause, a job still in the table at a prompt is
+    background or stopped. *)
+Theorem C07_jobs_exact : forall c pre,
+  forallb no_fgbg pre = true -> md (Term.run c pre) = AtPrompt -> ctab (k (Term.run c pre)) <> [] ->
+  let s := Term.run c pre in
+  let hj := gh s ++ [Poll (fst (poll_evs (quiet (k s))))] in
+  filter is_line (outs (k (Term.step c s AJobs))) = map job_line (tab (r_sh (Jobs.run hj))) /\ (valid hj = true -> good_table hj = true).
+Proof.
+  intros c pre A M NE s hj. destruct (jobs_prints c pre A M NE) as [L P]. fold s in L, P. fold hj in L, P.
+  split; [exact L|]. intro V. destruct (valid_good _ V) as [_ G]. unfold good in G.
+  unfold hj in G at 1. rewrite last_last in G. fold hj in G. rewrite P in G. exact G.
+Qed.
+
+(** non-vacuity of the lifting: a session (no fg / bg) whose projected history is valid *)
+Definition w_lift :=
+  [ALaunch [101; 102] true; ALaunch [103] false; ESig 101 19; ACtrlZ; AJobs; ESig 102 9; EExit 103 0; ESig 101 18;
+   AEmpty; ALaunch [104; 105] false; EExit 104 0; ESig 105 15; AJobs].
+Example C07_lift_nonvacuous :
+  forallb no_fgbg w_lift = true /\ valid (hist (mkcfg 1 true true) w_lift) = true /\ length (hist (mkcfg 1 true true) w_lift) = 13%nat /\ filter is_line (outs (k (Term.run (mkcfg 1 true true) w_lift))) = [OJobLine 1 101 Running true; OJobLine 2 103 Stopped false].
+Proof. vm_compute. repeat split. Qed.
+
 Definition cfg0 := mkcfg 1 true true.
-Definition tabv (s : st) := map (fun j => (jid j, jpids j, jst j, jbg j)) (Term.tab (k s)).
+Definition tabv (s : st) := map (fun j => (jid j, jpids j, jst j, jbg j)) (ctab (k s)).
 
 (** ---------- regression examples: the witnesses of the five repaired findings *)
 
@@ -69,7 +132,7 @@ Definition tabv (s : st) := map (fun j => (jid j, jpids j, jst j, jbg j)) (Term.
 Example C07_regress_stage_outside_group :
   groups (Term.run cfg0 [ALaunch [101; 102] false]) = [(101, 101); (102, 101)] /\
   md (Term.run cfg0 [ALaunch [101; 102] false; ACtrlC]) = AtPrompt /\
-  map pst (procs (k (Term.run cfg0 [ALaunch [101; 102] false; ACtrlC]))) = [PGone; PGone].
+  map Term.pst (procs (k (Term.run cfg0 [ALaunch [101; 102] false; ACtrlC]))) = [PGone; PGone].
 Proof. vm_compute. repeat split. Qed.
 
 (** count_waited (1687e77): after stop, continue and exit of 101 the shell still
@@ -78,7 +141,7 @@ Definition w_count_waited := [ALaunch [101; 102] false; ESig 101 19; ESig 101 18
 Example C07_regress_count_waited :
   md (Term.run cfg0 w_count_waited) = Waiting 101 [101; 102] [101] (VLaunch true) /\
   owner (Term.run cfg0 w_count_waited) = 101 /\
-  map pst (procs (k (Term.run cfg0 w_count_waited))) = [PGone; PRun] /\
+  map Term.pst (procs (k (Term.run cfg0 w_count_waited))) = [PGone; PRun] /\
   md (Term.run cfg0 (w_count_waited ++ [EExit 102 0])) = AtPrompt /\
   tabv (Term.run cfg0 (w_count_waited ++ [EExit 102 0])) = [].
 Proof. vm_compute. repeat split. Qed.
@@ -115,7 +178,7 @@ Example C07_nonvacuous :
   map (fun s => (wgid (md s), owner s)) (Term.trace cfg0 (init cfg0) w_session) =
     [(None, 1); (Some 103, 103); (None, 1); (None, 1); (Some 103, 103); (None, 1); (None, 1); (None, 1);
      (None, 1); (None, 1); (None, 1); (None, 1); (None, 1)] /\
-  map pst (procs (k (nth 4 (Term.trace cfg0 (init cfg0) w_session) (init cfg0)))) = [PRun; PRun; PRun] /\
+  map Term.pst (procs (k (nth 4 (Term.trace cfg0 (init cfg0) w_session) (init cfg0)))) = [PRun; PRun; PRun] /\
   outs (k (Term.run cfg0 w_session)) = [ODone 1 101 15].
 Proof. vm_compute. repeat split. Qed.
 
@@ -124,3 +187,6 @@ Print Assumptions C07_owner_cases.
 Print Assumptions C07_bg_never_owner.
 Print Assumptions C07_groups_fixed.
 Print Assumptions C07_full_holds.
+Print Assumptions C07_simulation.
+Print Assumptions C07_wait_exact.
+Print Assumptions C07_jobs_exact.
